@@ -290,18 +290,22 @@ def header_coercion(value: str) -> bool:
     return True
 
 
-def nullable_twice(first_null: bool, second_null: bool, version: int) -> bool:
+NULLABLE_BODIES = [b"{}", b"null", b"", b"3", b" "]
+
+
+def nullable_twice(first: int, second: int, version: int) -> bool:
     """
-    pre: 0 <= version <= 1
+    pre: version == param(0) % 2 and 0 <= first < len(NULLABLE_BODIES) and 0 <= second < len(NULLABLE_BODIES)
     post: _
     """
-    # a conforming body stays conforming however often the same loaded schema validates responses
+    # each response is judged by its own body (an object or null conform; a number, or no JSON document at all, do not),
+    # however often the same loaded schema validated responses before
     op = (S30 if version == 0 else S20)["/nullable"]["GET"]
-    for is_null in (first_null, second_null):
-        body = b"null" if is_null else b"{}"
-        if _raises(op.validate_response, resp(200, "application/json", body)):
+    for idx in (first, second, 1, 3):
+        failed = _raises(op.validate_response, resp(200, "application/json", pick(NULLABLE_BODIES, idx)))
+        if failed != (idx >= 2):
             return False
-    return not _raises(op.validate_response, resp(200, "application/json", b"null")) and _raises(op.validate_response, resp(200, "application/json", b"3"))
+    return True
 
 
 def swagger2_selection(r: int, body: int) -> bool:
@@ -396,9 +400,9 @@ OBLIGATIONS = [
        timeout={"quick": 200, "thorough": 600}, params=range(4), param_names=["string", "integer", "boolean", "null"],
        functions=["schemathesis.specs.openapi.checks._coerce_header_value", "schemathesis.core.string_to_boolean"],
        symbolic="header value text (declared type enumerated)", bounds={"quick": "value <= 2 characters over digits, sign/space/underscore/dot and the letters of true/false/yes/no/on/off/null", "thorough": "<= 3"}),
-    Ob(fn="nullable_twice", clause="a conforming (null) body never yields a failure, however many responses the same loaded schema has validated before",
-       timeout=120, functions=_SEL + ["schemathesis.specs.openapi.schemas.SwaggerV20.get_response_schema", "schemathesis.specs.openapi.references.ConvertingResolver"],
-       symbolic="null or object body of two earlier validations; 3.0 or 2.0", bounds="sequences of 4 validations on one loaded schema"),
+    Ob(fn="nullable_twice", clause="a conforming (object or null) body never yields a failure and a non-conforming one (a number, an empty or blank payload declared as JSON) always does, however many responses the same loaded schema has validated before",
+       timeout=300, params=range(2), param_names=["3.0", "2.0"], functions=_SEL + ["schemathesis.specs.openapi.schemas.SwaggerV20.get_response_schema", "schemathesis.specs.openapi.references.ConvertingResolver", "schemathesis.core.transport.Response.json"],
+       symbolic="which of 5 bodies (object, null, empty, number, blank) each of two earlier validations received; 3.0 or 2.0", bounds="sequences of 4 validations on one loaded schema"),
     Ob(fn="run_checks_collects", clause="every failing check's failure(s) are collected and reported once, none is lost or invented, later checks still run",
        timeout=200, functions=["schemathesis.checks.run_checks"], symbolic="outcome kind of each of 3 checks (pass / Failure / AssertionError / FailureGroup of 2)", bounds="3 checks x 4 outcomes"),
 ]
